@@ -13,7 +13,8 @@ FUNCS = ["buffers.FileBasedBuffer.__len__", "buffers.FileBasedBuffer.append", "b
 def main(argv=None):
     ck = Check("C17", argv, level="proof")
     res = world.run_functions(ck, MODS, FUNCS, timeout=20 if ck.tier == "quick" else 60)
-    world.report(ck, res)
+    from vlib.modelreplay import make_replayer
+    world.report(ck, res, replayer=make_replayer(ck, MODS))
     # bounded stand-in for the ASSUMED file model and for the composition across representation changes
     k = 2 if ck.tier == "quick" else 3
     payload = {"k": k, "overflows": [0, 1, 8191, 8192, 8193, 20000], "seed": ck.seed, "random": 200 if ck.tier == "quick" else 5000}
